@@ -279,7 +279,8 @@ func (h kvHandler) handleKvPessimisticRollback(req *kvrpcpb.PessimisticRollbackR
 			panic("KvPessimisticRollback: key not in region")
 		}
 	}
-	errs := h.mvccStore.PessimisticRollback(h.startKey, h.endKey, req.Keys, req.StartVersion, req.ForUpdateTs)
+	// the store takes raw keys, the region bounds of the session are memcomparable-encoded
+	errs := h.mvccStore.PessimisticRollback(MvccKey(h.startKey).Raw(), MvccKey(h.endKey).Raw(), req.Keys, req.StartVersion, req.ForUpdateTs)
 	return &kvrpcpb.PessimisticRollbackResponse{
 		Errors: convertToKeyErrors(errs),
 	}
